@@ -2,18 +2,18 @@
 # Evaluates one seeded change against the checks WITHOUT touching /repo: a scratch copy of /repo's working tree gets the
 # patch, the repository's own tests and the demonstration are run on it, then the requested checks run with VERIF_REPO
 # pointing at the copy (separate build/out/evidence directories).  The scratch copy is removed at the end.
-# Usage: tools/eval_seeded.sh <seed-dir with patch.diff [+demo.sh]> <result-dir> [--no-tests] [--tier quick|thorough] [check ids ... | all]
+# Usage: tools/eval_seeded.sh <seed-dir with patch.diff [+demo.sh]> <result-dir> [--no-tests] [--no-demo] [--tier quick|thorough] [check ids ... | all]
 set -u
 SEED=$(readlink -f "$1"); RES=$2; shift 2
-TESTS=1; TIER=quick; IDS=()
-while [ $# -gt 0 ]; do case "$1" in --no-tests) TESTS=0;; --tier) TIER=$2; shift;; *) IDS+=("$1");; esac; shift; done
+TESTS=1; DEMO=1; TIER=quick; IDS=()
+while [ $# -gt 0 ]; do case "$1" in --no-tests) TESTS=0;; --no-demo) DEMO=0;; --tier) TIER=$2; shift;; *) IDS+=("$1");; esac; shift; done
 V=$(cd "$(dirname "$0")/.." && pwd)
 mkdir -p "$RES"; RES=$(readlink -f "$RES")
 S=$(mktemp -d /tmp/ev_XXXXXX)
 rsync -a --exclude _build --exclude .git /repo/ "$S/repo/"
 if ! ( cd "$S/repo" && git apply --whitespace=nowarn "$SEED/patch.diff" ); then echo "PATCH DOES NOT APPLY" | tee "$RES/summary.txt"; rm -rf "$S"; exit 2; fi
 : > "$RES/summary.txt"
-if [ -x "$SEED/demo.sh" ] || [ -f "$SEED/demo.sh" ]; then
+if [ $DEMO = 1 ] && { [ -x "$SEED/demo.sh" ] || [ -f "$SEED/demo.sh" ]; }; then
 	( cd "$SEED" && timeout 900 bash ./demo.sh "$S/repo" ) > "$RES/demo_changed.log" 2>&1; echo "demo on changed tree: exit=$?" >> "$RES/summary.txt"
 	rsync -a --exclude _build --exclude .git /repo/ "$S/repo_unchanged/"        # demos write their build output into the source dir: never into /repo
 	( cd "$SEED" && timeout 900 bash ./demo.sh "$S/repo_unchanged" ) > "$RES/demo_unchanged.log" 2>&1; echo "demo on unchanged tree: exit=$?" >> "$RES/summary.txt"
